@@ -16,21 +16,38 @@ def parseAct : List String → Option Act
 
 def parseMsg (w : String) : Option Msg :=
   match w.splitOn "," with
-  | url :: wf :: ok :: act => do some ⟨url.toList, ← bool? wf, ← bool? ok, ← parseAct act⟩
+  | url :: wf :: ok :: act =>
+    -- `outer>inner`: a MsgExecLegacyContent and the type url of the content it wraps
+    match url.splitOn ">" with
+    | [u] => do some ⟨u.toList, ← bool? wf, ← bool? ok, ← parseAct act, []⟩
+    | [u, i] => do some ⟨u.toList, ← bool? wf, ← bool? ok, ← parseAct act, i.toList⟩
+    | _ => none
   | _ => none
 
-def parseEnv (w : String) : Option (Nat × TallyEnv) :=
-  match w.splitOn "," with
-  | [pid, bz, pct, naz, veto, yr, ye] => do
-    some (← nat? pid, ⟨← bool? bz, ← nat? pct, ← bool? naz, ← bool? veto, ← bool? yr, ← bool? ye⟩)
+def parseOpt (w : String) : Option (Opt × Nat) :=
+  match w.splitOn ":" with
+  | ["yes", x] => do some (.yes, ← nat? x)
+  | ["abstain", x] => do some (.abstain, ← nat? x)
+  | ["no", x] => do some (.no, ← nat? x)
+  | ["veto", x] => do some (.veto, ← nat? x)
   | _ => none
+
+/-- staking numbers of a block: `b,<total bonded>`, `v,<operator>,<bonded tokens>,<shares>`, `d,<who>,<validator>,<shares>` -/
+def parseStaking : List String → Staking → Option Staking
+  | [], st => some { st with vals := st.vals.reverse, dels := st.dels.reverse }
+  | w :: r, st =>
+    match w.splitOn "," with
+    | ["b", x] => do parseStaking r { st with totalBonded := ← nat? x }
+    | ["v", a, b, c] => do parseStaking r { st with vals := ⟨← nat? a, ← nat? b, ← nat? c⟩ :: st.vals }
+    | ["d", a, b, c] => do parseStaking r { st with dels := ⟨← nat? a, ← nat? b, ← nat? c⟩ :: st.dels }
+    | _ => none
 
 def parseParams : List String → Option Params
-  | [a, b, c, d, e, f, g, h, i, j, k, l, m] => do
+  | [a, b, c, d, e, f, g, h, i, j, k, l, m, n, o, q] => do
     some { minDeposit := ← nat? a, expMinDeposit := ← nat? b, maxDepositPeriod := ← nat? c, votingPeriod := ← nat? d,
            expVotingPeriod := ← nat? e, quorum := ← nat? f, minInitialDepositRatio := ← nat? g, minDepositRatio := ← nat? h,
            cancelRatio := ← nat? i, cancelDest := ← nat? j, burnPrevote := ← bool? k, burnVoteQuorum := ← bool? l,
-           burnVoteVeto := ← bool? m }
+           burnVoteVeto := ← bool? m, threshold := ← nat? n, expThreshold := ← nat? o, vetoThreshold := ← nat? q }
   | _ => none
 
 def parseOp : List String → Option Op
@@ -42,8 +59,9 @@ def parseOp : List String → Option Op
     some (.submit (← nat? who) (← msgs.mapM parseMsg) (← nat? initial) (← bool? exp))
   | ["deposit", pid, who, amt] => do some (.deposit (← nat? pid) (← nat? who) (← nat? amt))
   | ["cancel", pid, who] => do some (.cancel (← nat? pid) (← nat? who))
-  | ["vote", pid, _, _] => do some (.vote (← nat? pid))
-  | "endblock" :: dt :: envs => do some (.endBlock (← nat? dt) (← envs.mapM parseEnv))
+  | ["vote", pid, voter, opts] => do some (.vote (← nat? pid) (← nat? voter) (← (opts.splitOn ",").mapM parseOpt))
+  | ["delegate", who, _, amt] => do some (.spend (← nat? who) (← nat? amt))
+  | "endblock" :: dt :: stk => do some (.endBlock (← nat? dt) (← parseStaking stk {}))
   | _ => none
 
 def showStatus : Status → String
@@ -53,18 +71,24 @@ def b2s (b : Bool) : String := if b then "1" else "0"
 
 def showProp (p : Proposal) : String :=
   let v := if p.status == .deposit then ":-:-" else s!":{p.votingStart}:{p.votingEnd}"
-  s!"{p.id}:{showStatus p.status}:{p.total}:{p.depositEnd}{v}:{b2s p.expedited}"
+  let t := p.tallyRes
+  s!"{p.id}:{showStatus p.status}:{p.total}:{p.depositEnd}{v}:{b2s p.expedited}:{t.1}/{t.2.1}/{t.2.2.1}/{t.2.2.2}"
+
+def showOpt : Opt × Nat → String
+  | (.yes, w) => s!"yes:{w}" | (.abstain, w) => s!"abstain:{w}" | (.no, w) => s!"no:{w}" | (.veto, w) => s!"veto:{w}"
 
 def showQ (q : List (Nat × Nat)) : String := ";".intercalate (q.map fun e => s!"{e.1}/{e.2}")
 
 def showState (s : State) : String :=
   let ps := s.props.mergeSort (fun a b => a.id ≤ b.id)
   let ds := s.deps.mergeSort (fun a b => a.pid < b.pid || (a.pid == b.pid && a.who ≤ b.who))
+  let vs := s.votes.mergeSort (fun a b => a.pid < b.pid || (a.pid == b.pid && a.voter ≤ b.voter))
   let cs := (s.custom.map fun c => (String.ofList c.1, c.2)).mergeSort (fun a b => a.1 ≤ b.1)
   s!"gov={s.gov} props=[{";".intercalate (ps.map showProp)}] deps=[{";".intercalate (ds.map fun d => s!"{d.pid}/{d.who}={d.amt}")}]" ++
   s!" inact=[{showQ s.inactive}] act=[{showQ s.active}] bal=[{";".intercalate ([0, 1, 2, 3].map fun a => s!"{a}={getBal s.bal a}")}]" ++
   s!" kv={getKv s.kv 0},{getKv s.kv 1},{getKv s.kv 2},{getKv s.kv 3}" ++
-  s!" cust=[{";".intercalate (cs.map fun c => s!"{c.1}={c.2.depositRatio}/{c.2.votingPeriod}/{c.2.quorum}")}]"
+  s!" cust=[{";".intercalate (cs.map fun c => s!"{c.1}={c.2.depositRatio}/{c.2.votingPeriod}/{c.2.quorum}")}]" ++
+  s!" votes=[{";".intercalate (vs.map fun v => s!"{v.pid}/{v.voter}={",".intercalate (v.opts.map showOpt)}")}]"
 
 def stepLine (s : State) (line : String) : State × String :=
   match words line with
